@@ -829,7 +829,13 @@ func (d *driver) once(sc scenario, emit bool) (susp []suspect) {
 		}
 		return susp
 	case "parallelise":
+		if d.skip["parallelise"] {
+			return nil
+		}
 		o := runParallelise(sc)
+		if o.Blocked && o.MaxGapUs < 1_000_000 {
+			d.skip["parallelise"] = true // every later scenario would cost three grace periods
+		}
 		if emit {
 			d.emit(coqParCase(sc, o), map[string]any{"scenario": sc, "obs": o})
 			d.r.Count(fmt.Sprintf("parallelise n=%d", len(sc.Fails)))
@@ -839,14 +845,14 @@ func (d *driver) once(sc scenario, emit bool) (susp []suspect) {
 		}
 		return oraclePar(sc, o)
 	case "store-seq":
-		if d.skip["store"] {
+		if d.skip["cancel-store"] {
 			return nil
 		}
 		var outs [][]int
 		var s []suspect
 		if ok, gap := guarded(0, func() { outs, s = runStoreSeq(sc) }); !ok {
 			if gap < time.Second {
-				d.skip["store"] = true
+				d.skip["cancel-store"] = true
 				return []suspect{{"store-blocked:sequential", fmt.Sprintf("the store program %v had not finished after %v (a call never returned)", sc.Prog, 3*grace), true}}
 			}
 			return nil
@@ -860,14 +866,14 @@ func (d *driver) once(sc scenario, emit bool) (susp []suspect) {
 		}
 		return s
 	case "store-storm":
-		if d.skip["store"] {
+		if d.skip["cancel-store"] {
 			return nil
 		}
 		var s []suspect
 		var nc, nf int
 		if ok, gap := guarded(0, func() { s, nc, nf = runStoreStorm(sc) }); !ok {
 			if gap < time.Second {
-				d.skip["store"] = true
+				d.skip["cancel-store"] = true
 				return []suspect{{"store-blocked:concurrent", fmt.Sprintf("a Register/Cancel/Len storm of %d goroutines had not finished after %v", len(sc.Threads), 3*grace), true}}
 			}
 			return nil
